@@ -178,7 +178,7 @@ def autodiff_vs_jax(case, ctx):
     return all(np.shape(x) == np.shape(y) and jnp.asarray(x).dtype ==
                jnp.asarray(y).dtype and np.allclose(
                    np.asarray(x, np.float64), np.asarray(y, np.float64),
-                   **ctol) for x, y in zip(la, lb))
+                   equal_nan=True, **ctol) for x, y in zip(la, lb))
   child = L.make_module(prog, D, parent=None)
   h0 = combine(prims)
   key = jax.random.key(case['seed'])
